@@ -484,23 +484,25 @@ class RangeNode(SyntaxNode):
 
         if parser.schema and fieldname in parser.schema:
             field = parser.schema[fieldname]
-            if field.self_parsing():
-                try:
+            try:
+                if field.self_parsing():
                     q = field.parse_range(fieldname, start, end,
                                           self.startexcl, self.endexcl,
                                           boost=self.boost)
                     if q is not None:
                         return attach(q, self)
-                except QueryParserError:
-                    e = sys.exc_info()[1]
-                    return attach(query.error_query(e), self)
 
-            if start:
-                start = get_single_text(field, start, tokenize=False,
-                                        removestops=False)
-            if end:
-                end = get_single_text(field, end, tokenize=False,
-                                      removestops=False)
+                if start:
+                    start = get_single_text(field, start, tokenize=False,
+                                            removestops=False)
+                if end:
+                    end = get_single_text(field, end, tokenize=False,
+                                          removestops=False)
+            except Exception:
+                # Same policy as QueryParser.term_query(): a field that
+                # cannot parse the text yields an in-band error query
+                e = sys.exc_info()[1]
+                return attach(query.error_query(e), self)
 
         q = query.TermRange(fieldname, start, end, self.startexcl,
                             self.endexcl, boost=self.boost)
